@@ -237,6 +237,13 @@ def cases(tier, seed):
         out.append({"id": "h5:" + vec_id(v), "kind": "h5", "v": v,
                     "cycles": CYCLES if tier == "thorough" or ndev <= 1
                     else 2})
+    # a per-channel polarization whose array has the vector axis first
+    for shape in ("5x4x2", "3x3x3"):
+        v = {k: H5_AXES[k][0] for k in H5_AXES}
+        v["shape"] = shape
+        v["illum_polarization"] = "array-T"
+        out.append({"id": "h5:pol-vector-axis-first:" + shape, "kind": "h5",
+                    "v": v, "cycles": 2})
     for f in FIELDS:
         types = (["np.float64", "int", "np.float32", "np.int64", "0d-array",
                   "zero"]
@@ -352,6 +359,11 @@ def _meta_value(field, kind, labels):
         elif field == "noise_sd" and len(pairs) > 2:
             pairs = pairs[1:] + pairs[:1]
         return {l: v for l, v in pairs}
+    if kind == "array-T":
+        # the same per-channel polarization with the vector axis first
+        return xr.DataArray(
+            np.array(POLROWS[:n]).T, dims=["vector", ILL],
+            coords={"vector": ["x", "y", "z"], ILL: list(labels)})
     if kind == "array":
         if field == "illum_polarization":
             return xr.DataArray(
